@@ -136,7 +136,7 @@ var mutants = []Mutant{
 	{"C16", "transport-per-request-state", "roundtripper.go", [][2]string{{"\turlKey := r.uk.URLKey(req.URL)\n", "\turlKey := r.uk.URLKey(req.URL)\n\tr.swrTimeout += 0\n"}}, "C16.3", "transport field written per request"},
 	{"C16", "lazy-init-without-once", "internal/normalization.go", [][2]string{{"\tnormalizationHeader.Do(func() {", "\tfunc() {"}, {"\t\t\tnormalizationHeader.byCaseInsensitive[field] = struct{}{}\n\t\t}\n\t})", "\t\t\tnormalizationHeader.byCaseInsensitive[field] = struct{}{}\n\t\t}\n\t}()"}}, "C16.4", "racy lazy initialisation"},
 	{"C16", "background-shares-entry", "roundtripper.go", [][2]string{{"\t\tstored, err := r.cache.Get(storedID, req)\n\t\tif err != nil {\n\t\t\terrc <- err\n\t\t\treturn\n\t\t}\n", "\t\tstored := shared\n"}, {"go r.backgroundRevalidate(req2, stored.ID, urlKey, freshness, ccReq, refs, refIndex)", "go r.backgroundRevalidate(req2, stored.ID, stored, urlKey, freshness, ccReq, refs, refIndex)"}, {"\treq *http.Request,\n\tstoredID string,\n\turlKey string,", "\treq *http.Request,\n\tstoredID string,\n\tshared *internal.Response,\n\turlKey string,"}}, "C16.1", "D34"},
-	{"C16", "goroutine-result-in-shared-var", "store/fscache/fscache.go", [][2]string{{"\tgo func() {\n\t\tdefer close(errc)\n\t\terr := c.delete(key)\n\t\tif err != nil {\n\t\t\terrc <- &Error{\"Delete\", key, err}\n\t\t\treturn\n\t\t}\n\t\terrc <- nil\n\t}()\n", "\tvar last error\n\tgo func() {\n\t\tdefer close(errc)\n\t\terr := c.delete(key)\n\t\tlast = err\n\t\tif err != nil {\n\t\t\terrc <- &Error{\"Delete\", key, err}\n\t\t\treturn\n\t\t}\n\t\terrc <- nil\n\t}()\n\t_ = last\n"}}, "C16.6", "result handed over through a shared variable"},
+	{"C16", "goroutine-result-in-shared-var", "store/fscache/fscache.go", [][2]string{{"\tgo func() {\n\t\tdefer close(errc)\n\t\terr := c.delete(key, gate.publish)\n\t\tif err != nil {\n\t\t\terrc <- &Error{\"Delete\", key, err}\n\t\t\treturn\n\t\t}\n\t\terrc <- nil\n\t}()\n", "\tvar last error\n\tgo func() {\n\t\tdefer close(errc)\n\t\terr := c.delete(key, gate.publish)\n\t\tlast = err\n\t\tif err != nil {\n\t\t\terrc <- &Error{\"Delete\", key, err}\n\t\t\treturn\n\t\t}\n\t\terrc <- nil\n\t}()\n\t_ = last\n"}}, "C16.6", "result handed over through a shared variable"},
 	// ---- C17
 	{"C17", "plaintext-on-encrypt-error", "store/fscache/fscache.go", [][2]string{{"\t\tvar err error\n\t\tentry, err = c.enc.Encrypt(entry)\n\t\tif err != nil {\n\t\t\treturn err\n\t\t}", "\t\tif enc, err := c.enc.Encrypt(entry); err == nil {\n\t\t\tentry = enc\n\t\t}"}}, "C17.1", "plaintext written when encryption fails"},
 	{"C17", "serve-on-decrypt-error", "store/fscache/fscache.go", [][2]string{{"\t\tdata, err = c.enc.Decrypt(data)\n\t\tif err != nil {\n\t\t\treturn nil, err\n\t\t}", "\t\tif dec, derr := c.enc.Decrypt(data); derr == nil {\n\t\t\tdata = dec\n\t\t}"}}, "C17.2", "tampered file served"},
@@ -206,6 +206,16 @@ var mutants = []Mutant{
 	{"C05", "trailers-only-from-head-copy", "internal/entry.go", [][2]string{{"\tif err == nil && len(r.Data.Trailer) != len(head.Trailer) {\n\t\t// Trailer fields that were not announced appear on the response only while its body is\n\t\t// read, i.e. after the head was copied: write the message again with them.\n\t\thead.Trailer = r.Data.Trailer\n\t\tif len(head.TransferEncoding) == 0 {\n\t\t\thead.TransferEncoding = []string{\"chunked\"}\n\t\t}\n\t\trespBytes, err = httputil.DumpResponse(&head, true)\n\t}\n", ""}}, "C05.11", "D73"},
 	{"C15", "timed-out-set-still-publishes", "store/fscache/fscache.go", [][2]string{{"\tif err := publish(func() error { return c.root.Rename(tmp, name) }); err != nil {", "\t_ = publish\n\tif err := c.root.Rename(tmp, name); err != nil {"}}, "C15.4", "D74"},
 	{"C14", "timeout-does-not-abandon", "store/fscache/fscache.go", [][2]string{{"\tcase <-ctx.Done():\n\t\tgate.abandon()\n\t\treturn ctx.Err()\n\tcase err := <-errc:\n\t\treturn err\n\t}\n}\n\n// abandonGate", "\tcase <-ctx.Done():\n\t\treturn ctx.Err()\n\tcase err := <-errc:\n\t\treturn err\n\t}\n}\n\n// abandonGate"}}, "C14.11", "D74 (timeout branch)"},
+	// ---- one-line forms of changes of the fourth independent seeding
+	{"C01", "swr-window-from-resident-time", "roundtripper.go", [][2]string{{"age := internal.SaturatingAdd(freshness.Age.Value, r.clock.Since(freshness.Age.Timestamp))", "age := r.clock.Since(stored.ReceivedAt)"}}, "C01.20", "C01-7"},
+	{"C02", "age-deleted-after-merge", "internal/helpers.go", [][2]string{{"\tstoredResp.Header.Del(\"Age\")\n\tfor hdr, val := range resp.Header {", "\tfor hdr, val := range resp.Header {"}, {"\t\tstoredResp.Header[hdr] = val\n\t}\n}", "\t\tstoredResp.Header[hdr] = val\n\t}\n\tstoredResp.Header.Del(\"Age\")\n}"}}, "C02.9", "C02-7"},
+	{"C03", "opaque-authority-without-brackets", "internal/urlkeyer.go", [][2]string{{"return u.Scheme + \"://\" + strings.ToLower(u.Host) + \" \" + target", "return u.Scheme + \"://\" + strings.ToLower(u.Hostname()) + \":\" + u.Port() + \" \" + target"}}, "C03.7", "C03-8"},
+	{"C07", "dot-escape-kept", "internal/urlkeyer.go", [][2]string{{"\t\t\tif isUnreserved(r) {", "\t\t\tif isUnreserved(r) && r != '.' {"}}, "C07.10", "C07-7"},
+	{"C08", "matcher-ranks-a-copy", "internal/varymatcher.go", [][2]string{{"\tslices.SortFunc(entries, func(a, b *ResponseRef) int {", "\tentries = slices.Clone(entries)\n\tslices.SortFunc(entries, func(a, b *ResponseRef) int {"}}, "C08.11", "C08-7"},
+	{"C09", "meta-line-split-on-white-space", "internal/entry.go", [][2]string{{"\tmetaLine = bytes.TrimSpace(metaLine)\n\tparts := bytes.Split(metaLine, []byte(\"\\t\"))", "\tparts := bytes.Fields(metaLine)"}}, "C09.14", "C09-8"},
+	{"C12", "validate-now-from-raw-argument", "roundtripper.go", [][2]string{{"validateNow := hasReqMaxAge && reqMaxAge == 0", "validateNow := ccReq[\"max-age\"] == \"0\""}}, "C12.14", "C12-8"},
+	{"C15", "get-reads-a-limited-view", "store/fscache/fscache.go", [][2]string{{"data, err := io.ReadAll(f)", "data, err := io.ReadAll(io.LimitReader(f, 32<<20))"}}, "C15.5", "C15-7"},
+	{"C19", "variant-from-response-request", "roundtripper.go", [][2]string{{"_ = r.rs.StoreResponse(req, resp, urlKey, refs, start, end, refIndex)", "_ = r.rs.StoreResponse(cmp.Or(resp.Request, req), resp, urlKey, refs, start, end, refIndex)"}}, "C19.10", "C19-8"},
 }
 
 // MutantResult is one row of the kill matrix.
